@@ -8,6 +8,10 @@ calls of any length, that every configuration that starts a session satisfies th
 the sessions index by, and that every misuse call leaves the session state untouched.
 -/
 import GgrsModel.Model.Inventory
+import GgrsModel.Model.Sites.Builder
+import GgrsModel.Model.Sites.P2pSession
+import GgrsModel.Model.Sites.SpectatorSession
+import GgrsModel.Model.Sites.SyncTestSession
 import GgrsModel.Model.Builder
 
 namespace Ggrs.Builder
